@@ -535,7 +535,9 @@ impl EliasFanoCursor<'_> {
             return self.advance_one();
         }
 
-        let target_idx = self.idx + k;
+        // Saturate: `k` may be arbitrarily large (e.g. `usize::MAX`), and a wrapped
+        // sum would land on an earlier index instead of exhausting the cursor.
+        let target_idx = self.idx.saturating_add(k);
         if target_idx >= self.ef.len {
             self.idx = self.ef.len;
             return None;
